@@ -57,7 +57,7 @@ package plugin
 // Type invariants of configured plugins (established by the parser, C02/C03).
 // Configuration-level invariants (what the parser establishes) ...
 //@ macro prefixCfgOK(p) = p != nil && lifetimeOK(p.ValidLifetime) && lifetimeOK(p.PreferredLifetime) && 0 <= pfxBits(p.Prefix) && (p.Deprecated ==> p.Epoch != timeZero && timeSane(p.Epoch))
-//@ macro routeCfgOK(r) = r != nil && lifetimeOK(r.Lifetime) && 0 <= pfxBits(r.Prefix) && (r.Deprecated ==> r.Epoch != timeZero && timeSane(r.Epoch))
+//@ macro routeCfgOK(r) = r != nil && lifetimeOK(r.Lifetime) && prefValid(r.Preference) && 0 <= pfxBits(r.Prefix) && (r.Deprecated ==> r.Epoch != timeZero && timeSane(r.Epoch))
 //@ macro rdnssCfgOK(r) = r != nil && lifetimeOK(r.Lifetime)
 //@ macro dnsslOK(d) = d != nil && lifetimeOK(d.Lifetime)
 // ... and what Prepare adds once the interface is up (C17: a scrape or debug
@@ -78,7 +78,7 @@ package plugin
 //@   assigns heap(ndp.RouterAdvertisement) at ra, new mem(ndp.Option), new heap(ndp.PrefixInformation), new heap(ndp.RouteInformation), new heap(ndp.RecursiveDNSServer), new heap(ndp.DNSSearchList), new heap(ndp.MTU), new heap(ndp.LinkLayerAddress), new mem(netip.Addr), new mem(netip.Prefix), new mem(system.IP), new mem(system.Route), ghost.clockRead, ghost.now, ghost.lastAddrs
 //@   ensures A1: raHeaderEq(star(ra), old(star(ra)))
 //@   ensures A2: len(ra.Options) >= old(len(ra.Options)) && forall(j, 0, old(len(ra.Options)), ra.Options[j] == old(ra.Options[j]))
-//@   ensures A3: forall(j, old(len(ra.Options)), len(ra.Options), optRank(dyn(ra.Options[j])) == pluginRank(dyn(self)) && ra.Options[j].val > 0)
+//@   ensures A3: forall(j, old(len(ra.Options)), len(ra.Options), optRank(dyn(ra.Options[j])) == pluginRank(dyn(self)) && ra.Options[j].val > 0 && ra.Options[j].val < brk && (isType(ra.Options[j], "*ndp.RouteInformation") ==> prefValid(as(ra.Options[j], "*ndp.RouteInformation").Preference)))
 //@   ensures A4: err != nil ==> len(ra.Options) == old(len(ra.Options))
 //@ iface plugin.Plugin.Name(self) (s)
 //@ iface plugin.Plugin.String(self) (s)
@@ -160,7 +160,7 @@ package plugin
 //@   loop 1 invariant I3 [C01]: star(ra) == old(star(ra)) && fresh(opts)
 //@   ensures E1 [C01,C13]: len(ra.Options) == old(len(ra.Options)) + len(prefixes)
 //@   ensures E2 [C01,C04]: raHeaderEq(star(ra), old(star(ra))) && forall(j, 0, old(len(ra.Options)), ra.Options[j] == old(ra.Options[j]))
-//@   ensures E3 [C01,C13]: forall(j, old(len(ra.Options)), len(ra.Options), isPI(ra.Options[j]) && piMatches(as(ra.Options[j], "*ndp.PrefixInformation"), p, prefixes[j - old(len(ra.Options))], prefixLifetimeV(p, ghost.clockRead), prefixLifetimeP(p, ghost.clockRead)))
+//@   ensures E3 [C01,C13]: forall(j, old(len(ra.Options)), len(ra.Options), isPI(ra.Options[j]) && ra.Options[j].val < brk && piMatches(as(ra.Options[j], "*ndp.PrefixInformation"), p, prefixes[j - old(len(ra.Options))], prefixLifetimeV(p, ghost.clockRead), prefixLifetimeP(p, ghost.clockRead)))
 //@   opt safety [C01,C17]
 //@   opt frame [C01]
 
@@ -307,7 +307,7 @@ package plugin
 //@   loop 1 invariant I4 [C01]: lt == routeLifetime(r, ghost.clockRead) && ra != nil
 //@   ensures E1 [C01,C15]: len(ra.Options) == old(len(ra.Options)) + len(routes)
 //@   ensures E2 [C01,C04]: raHeaderEq(star(ra), old(star(ra))) && forall(j, 0, old(len(ra.Options)), ra.Options[j] == old(ra.Options[j]))
-//@   ensures E3 [C01,C15]: forall(j, old(len(ra.Options)), len(ra.Options), isRI(ra.Options[j]) && riMatches(as(ra.Options[j], "*ndp.RouteInformation"), r, routes[j - old(len(ra.Options))], routeLifetime(r, ghost.clockRead)))
+//@   ensures E3 [C01,C15]: forall(j, old(len(ra.Options)), len(ra.Options), isRI(ra.Options[j]) && ra.Options[j].val < brk && riMatches(as(ra.Options[j], "*ndp.RouteInformation"), r, routes[j - old(len(ra.Options))], routeLifetime(r, ghost.clockRead)))
 //@   opt safety [C01,C17]
 //@   opt frame [C01]
 
